@@ -107,11 +107,14 @@ def gen_url(r: random.Random):
     return f"{scheme}://{ui}{host}{port}{path}{q}{f}", shape
 
 
+NONASCII = ["\u00e9", "\u263a", "\u00a0", "\u0100", "\u00ff", "\U0001d11e", "\u0080", "\u20ac"]
+
+
 def run_case(case):
     r = random.Random(case["seed"])
     viol = []
     cnt = {"urls": 0, "law_parse": 0, "law_roundtrip": 0, "law_origin": 0, "law_host_header": 0,
-           "law_headers": 0, "law_ascii": 0, "law_content": 0, "law_explicit": 0}
+           "law_headers": 0, "law_ascii": 0, "law_content": 0, "law_explicit": 0, "nonascii_sites": 0}
     sigs = set()
     sample = None
 
@@ -184,17 +187,34 @@ def run_case(case):
         if host_vals != [want]:
             mech = "ipv6-unbracketed" if shape["host"] == "ipv6" else "other"
             v("host-header:" + mech, f"Host for {s!r} is {host_vals!r}, expected {[want]!r}", {"url": s})
-        # non-ascii str
+        # non-ascii str: every text argument, characters from both sides of U+0100
         if i % 10 == 0:
             cnt["law_ascii"] += 1
-            bad = s.replace("://", "://é", 1)
-            try:
-                httpcore.URL(bad)
-                v("nonascii-accepted", f"URL({bad!r}) accepted", {"url": bad})
-            except TypeError:
-                pass
-            except Exception as exc:  # noqa
-                v("nonascii-wrong-exception:" + type(exc).__name__, f"URL({bad!r}) raised {exc!r}", {"url": bad})
+            ch = NONASCII[(i // 10) % len(NONASCII)]
+            bad = s.replace("://", "://" + ch, 1)
+            sites = {
+                "url": lambda: httpcore.URL(bad),
+                "url-path": lambda: httpcore.URL(s + ch),
+                "scheme": lambda: httpcore.URL(scheme="http" + ch, host="h", port=None, target="/"),
+                "host": lambda: httpcore.URL(scheme="http", host="h" + ch, port=None, target="/"),
+                "target": lambda: httpcore.URL(scheme="http", host="h", port=None, target="/" + ch),
+                "method": lambda: httpcore.Request("GE" + ch, u),
+                "header-name": lambda: httpcore.Request("GET", u, headers=[("X-" + ch, "v")]),
+                "header-value": lambda: httpcore.Request("GET", u, headers=[("X-A", "v" + ch)]),
+                "header-map-value": lambda: httpcore.Request("GET", u, headers={"X-A": ch}),
+                "response-header-value": lambda: httpcore.Response(200, headers=[("X-A", ch)]),
+            }
+            for site, fn in sites.items():
+                cnt["nonascii_sites"] += 1
+                rng_ = "latin1" if ord(ch) < 0x100 else "wide"
+                try:
+                    fn()
+                    v(f"nonascii-accepted:{site}:{rng_}", f"{site} with {ch!r} (U+{ord(ch):04X}) accepted", {"url": s, "char": ch})
+                except TypeError:
+                    pass
+                except Exception as exc:  # noqa
+                    v(f"nonascii-wrong-exception:{site}:{type(exc).__name__}", f"{site} with {ch!r} raised {exc!r}",
+                      {"url": s, "char": ch})
         # explicit components
         if i % 5 == 0:
             cnt["law_explicit"] += 1
